@@ -5,16 +5,22 @@
           head        `<v2Allowed 0|1> <programme|-> <selected complementary objects>`
           programmes  `<contents> <avs refs (tokens)>`
           contents    `<objects> <avs refs>`
-          objects     `<objects> <packs> <tracks (s = silent)> <complementary> <params 0|1> <own avs tokens>`
-          packs       `<type 1..5> <channels> <packs> <encodePacks> <input|-> <output|-> <norm|-> <scr|->`
+          objects     `<objects> <packs> <tracks (s = silent)> <complementary> <params: 5 bits start duration gain mute
+                      positionOffset> <own avs tokens>`
+          packs       `<type 1..5> <channels> <packs> <encodePacks> <input|-> <output|-> <norm|-> <scr|-> <nfc|-> <absDist|->`
           channels    `<type> <freq 0|1> <blocks>`  blocks `/`-separated, each
-                      `cart:eq:order:degree:norm:scr:outCh:coeffs`, coeffs `,`-separated `<input|->.<bad 0|1>` or `-`
+                      `cart:eq:order:degree:norm:scr:outCh:coeffs:rtime:duration:nfc`, coeffs `,`-separated
+                      `<input|->.<badVar 0|1>.<negDelay 0|1>` or `-`; parameter values are tokens (equal value = equal token)
           streams     `<channel|-> <pack|->`
           trackFormats `<stream|->`
           trackUIDs   `<trackIndex|-> <pack|-> <trackFormat|-> <channel|->`
-   out: `items:<n>` | `adm:<kind>` | `internal:<kind>`, then ` mt=<0|1>`
+   out: `items:<n>` | `adm:<kind>@<function>:<ordinal> <reads>` | `internal:<kind>`, then ` mt=<0|1>`
         (1 iff the multitree validation accepting the document implies the unique-path property; proved as
-        `multitree_sound`, still evaluated);
+        `multitree_sound`, still evaluated).  `<kind>` is the canonical raise-site kind (`paramshare.<name>` /
+        `parampath.<name>` carry the parameter name), `<function>:<ordinal>` its raise site (`AdmKind.site`), `<reads>`
+        the structured diagnostic: `,`-separated `ao:3` (an element id), `tn.apf:1` (a type name), `ab:2.0` (block id),
+        `avs:7`, `n:2` (a length), `pn:rtime`, `r:<reason>` (start of one AdmFormatRefError reason), `chna`; `-` if empty.
+        The request `sites` answers the whole table `<kind>=<function>:<ordinal>;...`.
         `bad-op` for a malformed or ill-scoped line. -/
 import Earverif.Model.Validate
 import Earverif.Driver.Util
@@ -46,7 +52,7 @@ def elems (s : String) : List (List String) :=
 
 def coeff? (s : String) : Option Coeff :=
   match s.splitOn "." with
-  | [i, b] => do some { input := ← optNat i, badParam := ← bool? b }
+  | [i, b, n] => do some { input := ← optNat i, badVar := ← bool? b, negDelay := ← bool? n }
   | _ => none
 
 def coeffs? (s : String) : Option (List Coeff) :=
@@ -54,9 +60,10 @@ def coeffs? (s : String) : Option (List Coeff) :=
 
 def block? (s : String) : Option Block :=
   match s.splitOn ":" with
-  | [c, e, o, g, n, sc, oc, cs] => do
+  | [c, e, o, g, n, sc, oc, cs, rt, du, nf] => do
     some { cartMismatch := ← bool? c, equation := ← bool? e, order := ← optInt o, degree := ← optInt g,
-           norm := ← optNat n, scr := ← optNat sc, outCh := ← optNat oc, coeffs := ← coeffs? cs }
+           norm := ← optNat n, scr := ← optNat sc, outCh := ← optNat oc, coeffs := ← coeffs? cs,
+           rtime := ← optNat rt, duration := ← optNat du, nfc := ← optNat nf }
   | _ => none
 
 def blocks? (s : String) : Option (List Block) :=
@@ -72,14 +79,19 @@ def content? : List String → Option Content
 
 def obj? : List String → Option Obj
   | [o, p, t, c, pa, a] => do
-    some { objects := ← natList o, packs := ← natList p, tracks := ← trackList t, comps := ← natList c,
-           params := ← bool? pa, avs := ← natList a }
+    let bits ← pa.toList.mapM (fun ch => bool? (String.singleton ch))
+    match bits with
+    | [b1, b2, b3, b4, b5] =>
+      some { objects := ← natList o, packs := ← natList p, tracks := ← trackList t, comps := ← natList c,
+             pstart := b1, pdur := b2, pgain := b3, pmute := b4, poffset := b5, avs := ← natList a }
+    | _ => none
   | _ => none
 
 def pack? : List String → Option Pack
-  | [t, c, p, e, i, o, n, s] => do
+  | [t, c, p, e, i, o, n, s, nf, ad] => do
     some { type := ← typeDef? t, channels := ← natList c, packs := ← natList p, encodePacks := ← natList e,
-           input := ← optNat i, output := ← optNat o, norm := ← optNat n, scr := ← optNat s }
+           input := ← optNat i, output := ← optNat o, norm := ← optNat n, scr := ← optNat s,
+           nfc := ← optNat nf, absDist := ← optNat ad }
   | _ => none
 
 def channel? : List String → Option Channel
@@ -98,15 +110,48 @@ def atu? : List String → Option TrackUID
   | [i, p, f, c] => do some { trackIndex := ← optNat i, pack := ← optNat p, trackFormat := ← optNat f, channel := ← optNat c }
   | _ => none
 
-def showAdm (k : AdmKind) : String := (reprStr k).replace "Earverif.Validate.AdmKind." ""
+def showPName : PName → String
+  | .rtime => "rtime" | .duration => "duration" | .normalization => "normalization"
+  | .nfcRefDist => "nfcRefDist" | .screenRef => "screenRef" | .absoluteDistance => "absoluteDistance"
+
+def showAdm : AdmKind → String
+  | .paramshare n => "paramshare." ++ showPName n
+  | .parampath n => "parampath." ++ showPName n
+  | k => (reprStr k).replace "Earverif.Validate.AdmKind." ""
 def showInt (k : IntKind) : String := (reprStr k).replace "Earverif.Validate.IntKind." ""
+
+def showEK : EK → String
+  | .ap => "ap" | .ac => "ac" | .ao => "ao" | .apf => "apf" | .acf => "acf" | .asf => "asf" | .atf => "atf" | .atu => "atu"
+
+def showAcc : Acc → String
+  | .id k i => s!"{showEK k}:{i}"
+  | .tname k i => s!"tn.{showEK k}:{i}"
+  | .block c b => s!"ab:{c}.{b}"
+  | .avs t => s!"avs:{t}"
+  | .num n => s!"n:{n}"
+  | .pname n => "pn:" ++ showPName n
+  | .reason r => "r:" ++ (reprStr r).replace "Earverif.Validate.Diag." ""
+  | .chna => "chna"
+
+def showMsg (m : Msg) : String := if m.isEmpty then "-" else ",".intercalate (m.map showAcc)
+
+def showSite (k : AdmKind) : String := s!"{k.site.1}:{k.site.2}"
 
 def showRes : R Nat → String
   | .ok n => s!"items:{n}"
-  | .error (.adm k) => "adm:" ++ showAdm k
+  | .error (.adm k m) => s!"adm:{showAdm k}@{showSite k} {showMsg m}"
   | .error (.internal k) => "internal:" ++ showInt k
 
+/-- the raise-site table (parameter-carrying kinds once: the site does not depend on the name) -/
+def siteTable : String :=
+  ";".intercalate (AdmKind.all.map (fun k =>
+    (match k with
+     | .paramshare _ => "paramshare"
+     | .parampath _ => "parampath"
+     | k => showAdm k) ++ "=" ++ showSite k))
+
 def answer (line : String) : String :=
+  if line.trimAscii.toString == "sites" then siteTable else
   match line.splitOn "|" with
   | [hd, ps, cs, os, pks, chs, ss, tfs, atus] =>
     let r : Option String := do
